@@ -539,9 +539,21 @@ func GenR(rng *Rng, prop string, tier string) *RScript {
 		}
 	}
 	// a stop of a collection somewhere in C04 scenarios
+	stopped := int64(0)
 	if prop == "C04" && rng.Pct(30) {
 		l := Pick(rng, lives)
+		stopped = l.c.ID
 		s.Ops = append(s.Ops, &ROp{Kind: "stop", Coll: l.c.ID, AfterRound: rng.Range(0, nRounds-1)})
+	}
+	// a collection announced twice (listed at the start and seen by the watch, or two watch notifications): the second
+	// StartReadCollection may overlap the first or come any time later; it must have no further effect
+	if (prop == "C01" || prop == "C04") && rng.Pct(25) {
+		l := Pick(rng, lives)
+		if l.c.ID != stopped && !l.dropped && l.c.State != "dropped" {
+			// (only for collections that stay alive: a notification that is still under way when its collection is dropped
+			// carries stale information, which the property does not speak about)
+			s.Ops = append(s.Ops, &ROp{Kind: "start2", Coll: l.c.ID, AfterRound: rng.Range(-1, nRounds-1)})
+		}
 	}
 	// fault budgets
 	if rng.Pct(40) {
